@@ -1,6 +1,6 @@
 ; props: C06
 ; lemma: inductive facts about the spec sums (these are the lemma-axioms of section quorum_axioms)
-; exclude-sections: quorum_axioms
+; exclude-sections: quorum_axioms quorum_axioms2
 (declare-const a (Array Int Int))
 (declare-const m (Array Int S_interfaces_CommitteeMember))
 (declare-const p (Array Int Bool))
@@ -32,6 +32,17 @@
 (assert (<= 0 n))
 (assert (and (<= 0 (SWP p m n)) (<= (SWP p m n) (SumMA m n))))
 (assert (not (and (<= 0 (SWP p m (+ n 1))) (<= (SWP p m (+ n 1)) (SumMA m (+ n 1))))))
+;; goal SWP.empty-ids.base
+(declare-const ids Slice_BS)
+(assert (<= (len_Slice_BS ids) 0))
+(assert (<= n 0))
+(assert (not (= (SWP (MemPred ids m) m n) 0)))
+;; goal SWP.empty-ids.step
+(declare-const ids Slice_BS)
+(assert (<= (len_Slice_BS ids) 0))
+(assert (<= 0 n))
+(assert (= (SWP (MemPred ids m) m n) 0))
+(assert (not (= (SWP (MemPred ids m) m (+ n 1)) 0)))
 ;; goal CANARY.sums-not-trivial
 (assert (< 0 n))
 (assert (not (= (SumA a n) 0)))
